@@ -43,6 +43,9 @@ def corpus():
         "tlo:0:4|failk:1:ValueError|[]|ex [1,2];ex [1];as [1,2,3];ss 0 0 N [4,5];ap 7;ia [8,9]",
         "tlo:1:3|failk:0:RuntimeError|[]|ap 1",
         '#{"ops":[[["ll"],"append",[[1,2]]],[["st"],"update",[[3,4,5]]],[["dl","a"],"extend",[[1,2]]],[["dc"],"dsetitem",[5,5]]],"failk":[1,"ValueError"]}',
+        # a rejected assignment to a never-read trait with a dynamic default and a handler must not materialise the default
+        '#{"scalar":"validator","steps":[["de",4,"set"],["i",9,"set"],["de",null,"get"]],"at":0,"k":0,"exc":"ValueError"}',
+        '#{"scalar":"validator","steps":[["dn",-3,"trait_set"],["i",2,"set"],["dn",null,"get"],["dn",5,"set"]],"at":0,"k":0,"exc":"TraitError"}',
     ]
 
 
